@@ -73,7 +73,9 @@ class World:
         apply_op(big, ['unif'])
         apply_op(big, ['unif'])
         self.lives['UnitSquareBig'] = big
-        self.lists['UnitSquareBig'] = {'big': big.leaves()[:48]}
+        BL = big.leaves()
+        self.lists['UnitSquareBig'] = {'big': BL[:48], 'c17': BL[:17], 'c34': BL[:34], 'c37': BL[:37], 'c49': BL[:49],
+                                       'r6': BL[50:56], 'r8': BL[40:48], 'c64': BL, 'r3': BL[61:64]}
         # UnitSquare and LShape (unit pieces) coincide in parameter space on [0, 4] but not in the plane: their
         # x <= 4 lists have identical reprs, so only the curve name separates their cache keys
         self.twin_ok = str(self.lists['UnitSquare']['x_le_4']) == str(self.lists['LShape']['x_le_4']) and \
@@ -255,6 +257,46 @@ def body(case, rec):
                                                                     'second_list': [[v2[i] for i in probe], s2]}, case)
                     return
                 continue
+            elif kind == 'sl_large':
+                # a matrix above every size threshold (160 x 120 = 19 200 entries): pool assembly, then every class of
+                # truncation of the stored file followed by a second request; 240 sampled entries (and the last row and
+                # column) are compared with single-pair values, the repeated requests bitwise with the first result
+                if 'long' not in W.lives:
+                    lv = Live({'kind': 'param', 'curve': 'UnitSquare', 'ts': [0.0, 1.0], 'xs': None})
+                    for _ in range(3):
+                        apply_op(lv, ['unif'], cap=10**6)
+                    W.lives['long'] = lv
+                allv = W.lives['long'].leaves()
+                test, trial = allv[:160], allv[100:220]
+                with repo.quiet():
+                    Sl = SingleLayerOperator(W.lives['long'].mesh, cache_dir=cdir)
+                    with repo.pool_shim([slm], 16):
+                        A0 = np.asarray(Sl.bilform_matrix(test, trial, use_mp=True), dtype=float)
+                    idx = [((i * 7919) % 160, (i * 104729) % 120) for i in range(240)] + [(159, j) for j in range(0, 120, 7)] + \
+                          [(i, 119) for i in range(0, 160, 11)] + [(159, 119)]
+                    for (i, j) in idx:
+                        if A0[i, j] != Sl.bilform(trial[j], test[i]):
+                            rec.violation('C17/matrix/large/mismatch', {'op_index': n_op, 'entry': [i, j]}, case)
+                            return
+                    for how in op['hows']:
+                        files = sorted(glob.glob(os.path.join(cdir, 'SL_*.npy')))
+                        if not files:
+                            rec.violation('C17/cache/no_valid_file_after_call', {'op_index': n_op, 'op': op}, case)
+                            return
+                        for f in files:
+                            damage_file(f, how, 3)
+                        rec.cls('damage_large_' + how)
+                        with repo.pool_shim([slm], 16):
+                            A1 = np.asarray(Sl.bilform_matrix(test, trial, use_mp=True), dtype=float)
+                            A2 = np.asarray(Sl.bilform_matrix(test, trial, use_mp=True), dtype=float)
+                        for nm, Ax in (('after_damage', A1), ('warm_after_damage', A2)):
+                            if Ax.shape != A0.shape or not np.array_equal(Ax, A0):
+                                rec.violation('C17/matrix/large/%s/mismatch' % nm,
+                                              {'op_index': n_op, 'how': how, 'entries_different': int(np.sum(Ax != A0)) if Ax.shape == A0.shape else -1}, case)
+                                return
+                keys.add(('SLlarge', 1))
+                hit_after_damage = True
+                continue
             elif kind in ('m0_fault', 'sl_fault'):
                 # a fault (exception) in the middle of a computation against the cache directory: whatever it leaves
                 # behind must not be served as a result later
@@ -405,6 +447,12 @@ def crash_point_cases():
             out.append({'ops': [A, M, D, A2, M2, {'op': 'fresh'}, A, M]})
     # faults in the middle of a computation (the quadrature of element 35 of 48 / of the last trial column raises)
     out.append({'ops': [{'op': 'm0_long'}]})
+    out.append({'ops': [{'op': 'sl_large', 'hows': ['short', 'half']}]})
+    out.append({'ops': [{'op': 'sl_large', 'hows': ['header', 'empty']}]})
+    # chunk sizes above one that do not divide the number of columns (chunk = M // (16 workers) + 1), few rows
+    B = lambda te, tr, w: {'op': 'assemble', 'curve': 'UnitSquareBig', 'test': te, 'trial': tr, 'mp': True, 'workers': w}
+    out.append({'ops': [B('r8', 'c17', 1), B('r6', 'c34', 1), {'op': 'fresh'}, B('r6', 'c37', 2)]})
+    out.append({'ops': [B('r6', 'c49', 3), B('r3', 'c64', 2), B('r3', 'c49', 1)]})
     out.append({'ops': [{'op': 'm0_fault', 'after': 35}, {'op': 'fresh'}]})
     out.append({'ops': [{'op': 'm0_fault', 'after': 40.5}, {'op': 'fresh'}]})
     out.append({'ops': [{'op': 'sl_fault', 'after': 2}, {'op': 'fresh'}, {'op': 'sl_fault', 'after': 1}]})
